@@ -72,6 +72,10 @@ func genShape(r *gen.Rand) ShapeCase {
 		s.Container, s.Op = []string{"nested", "intkeys", "namedkeys"}[r.Intn(3)], "once"
 	case 2:
 		s.Container, s.Op = "uni", "uni"
+	case 3, 4:
+		s.Container, s.Op, s.Key = "live", "live", ""
+		s.Val = genLive(r)
+		return s
 	}
 	if s.Op == "call" {
 		s.Container = []string{"fd", "fc", "fb", "fs", "flen", "fkey", "frec"}[r.Intn(7)]
@@ -82,6 +86,9 @@ func genShape(r *gen.Rand) ShapeCase {
 }
 
 func (k *checker) checkShape(s ShapeCase) bool {
+	if s.Op == "live" {
+		return k.checkLive(s)
+	}
 	vm := otto.New()
 	ptrs := []*shP{{1}, {2}, {3}}
 	ptrmap := map[string]*shP{"a": {1}, "b": {2}}
